@@ -9,6 +9,7 @@ import (
 	"github.com/aergoio/aergo/v2/types"
 	"github.com/aergoio/aergo/v2/types/message"
 	vf "github.com/aergoio/aergo/v2/zzvf"
+	lru "github.com/hashicorp/golang-lru"
 )
 
 // C07.a: a branch displaces the main chain only if its tip is strictly higher than the best block.
@@ -227,4 +228,84 @@ func vfCheckMemPoolPut(ob string, u *vfUniverse) {
 		}
 	}
 	vf.Assert(len(put) == expected, ob)
+}
+
+// C07.e: delivery order. The main branch is connected; the blocks of the side branch arrive through the real
+// ChainService.addBlock (addBlockInternal, isOrphan/handleOrphan, newChainProcessor, run with resolveOrphan, reorganize)
+// in EVERY order, children before parents included. The consensus stub either vetoes every reorganisation or rejects
+// every block at execution, so the main chain must never be displaced. Decided: a reorganisation is attempted exactly
+// when the connected part of the side branch reaches above the best block (never for an equal or shorter branch, never
+// while the branch is still detached), every delivered block ends up stored, the orphan pool ends empty, the only KV
+// writes are the b block insertions, the indexes and the best block are unchanged.
+func VF_C07_e() {
+	a := 1 + vf.Choice("a", vf.Param("maxA", 2))
+	f := vf.Choice("f", a)
+	b := 1 + vf.Choice("b", a-f+vf.Param("maxExtra", 1)) // side tip from below the best up to maxExtra above it
+	u := vfBuild(a, b, f, nil, vfRootSeq())
+	if err := u.connect(u.gen); err != nil {
+		vf.Fail("setup")
+	}
+	for _, blk := range u.main {
+		if err := u.connect(blk); err != nil {
+			vf.Fail("setup")
+		}
+	}
+	u.cs.sdb.SetRoot(u.mainAt(a).Header.BlocksRootHash)
+	u.cs.op = NewOrphanPool(DfltOrphanPoolSize)
+	u.cs.errBlocks, _ = lru.New(dfltErrBlocks)
+	veto := vf.Choice("mode", 2) == 0
+	if veto {
+		u.cc.lib = uint64(f) + 1
+	} else {
+		u.cc.rejectAll = true
+	}
+	units := u.kv.Units
+	// delivery order: a permutation of the side branch
+	rest := make([]int, b)
+	for i := range rest {
+		rest[i] = i
+	}
+	delivered := make([]bool, b)
+	stored := make([]bool, b)
+	attempts := 0
+	for len(rest) > 0 {
+		k := vf.Choice("next", len(rest))
+		i := rest[k]
+		rest = append(append([]int{}, rest[:k]...), rest[k+1:]...)
+		delivered[i] = true
+		// expected effect: the block is stored if its parent is; then the waiting descendants follow; a reorganisation is
+		// attempted iff the last block connected by this delivery is higher than the best block
+		attempt := false
+		if i == 0 || stored[i-1] {
+			last := i
+			stored[i] = true
+			for last+1 < b && delivered[last+1] {
+				last++
+				stored[last] = true
+			}
+			attempt = f+last+1 > a
+		}
+		if attempt {
+			attempts++
+		}
+		err := u.cs.addBlock(u.side[i], nil, "")
+		if attempt && !veto {
+			vf.Assert(err != nil, "C07.e")
+		} else {
+			vf.Assert(err == nil, "C07.e")
+		}
+		vf.Assert(u.cc.needCalls == attempts, "C07.e")
+	}
+	vf.Reach("C07.e")
+	for i, blk := range u.side {
+		vf.Assert(stored[i], "C07.e")
+		got, err := u.cs.cdb.getBlock(blk.Hash)
+		vf.Assert(err == nil && got != nil, "C07.e")
+	}
+	vf.Assert(u.cs.op.curCnt == 0 && len(u.cs.op.cache) == 0, "C07.e")
+	vf.Assert(u.kv.Units == units+b, "C07.e")
+	vf.Assert(len(u.cc.validCalls) == 0 || !veto, "C07.e")
+	vfCheckChain("C07.e", u.cs, u.kv, u.oldPath())
+	vf.Observe("attempts", attempts)
+	vf.Observe("units", u.kv.Units)
 }
